@@ -73,7 +73,26 @@ fn wire_class(s: &str) -> &'static str {
     let (a, hit1) = strip_caret_letters(s);
     if hit1 && wire_ok(&a) { return "caret-then-codepage-letter"; }
     let b = strip_c8(&a);
-    let hit2 = b.len() != a.len();
+    // the recorded ^8 finding needs bytes of a non-Latin codepage *after* a ^8 and before the next marker: in the encoded text, a
+    // "^8" followed (before any further caret) by a byte above 0x7F. A ^8 at the end of the text, or directly in front of a
+    // codepage switch, is harmless on the unchanged code
+    let enc = g1(escape, &a).and_then(|es| guard(move || to_lossy_bytes(&es).to_vec())).unwrap_or_default();
+    let mut desync = false;
+    let mut i = 0;
+    while i + 1 < enc.len() {
+        if enc[i] == b'^' && enc[i + 1] == b'8' {
+            let mut j = i + 2;
+            // up to the next *marker* (a caret followed by a codepage letter or 8); other caret pairs (^^, colours, escapes) do not
+            // change the codepage on either side
+            while j < enc.len() {
+                if enc[j] == b'^' && j + 1 < enc.len() { if b"LGCETBJHSK8".contains(&enc[j + 1]) { break; } j += 2; continue; }
+                if enc[j] >= 0x80 { desync = true; }
+                j += 1;
+            }
+        }
+        i += 1;
+    }
+    let hit2 = b.len() != a.len() && desync;
     if hit2 && wire_ok(&b) { return if hit1 { "caret-then-codepage-letter" } else { "colour8-desync" }; }
     let c: String = b.chars().filter(|ch| !is_ni(*ch) && !is_t5(*ch)).collect();
     let hit3 = c.len() != b.len();
@@ -193,6 +212,10 @@ pub fn run(ctx: &mut Ctx) {
             do_string(ctx, &format!("{}{}", pre, suf), true, true);
             do_string(ctx, &format!("a{}{}", pre, suf), true, true);
         }
+    }
+    // ^8 (colour *and* codepage reset) in every position relative to codepage text: at the end, directly before a switch, alone
+    for t in ["^8", "abc^8", "^1red^8", "\u{428}\u{443}\u{43c}^8", "^8\u{448}", "^1abc^8\u{11b}\u{161}", "\u{448}^8\u{7f8e}", "a^8b", "^8^8", "x^8\u{e9}"] {
+        do_string(ctx, t, true, true);
     }
     // random longer Unicode strings
     let pool: Vec<char> = "^^^0189vacdsqtlrh|*:\\/?\"<>#LGCETBJHSK abcXYZ_-.,\u{b2}\u{bd}\u{ff15}\u{663}\u{ff}\u{fe}\u{ef}\u{bb}\u{bf}\u{15e}\u{45e}\u{305e}\u{4e5e}\u{131}\u{438}\u{176}é€ěšЖяαβğşąłıİ日本語한국어中文ﾏ¥訖\u{1f600}\u{fffd}\u{0}".chars().collect();
